@@ -877,18 +877,18 @@ fn run_loader_case(dir: &std::path::Path, c: &LoaderCase) -> Result<bool, String
     let base = dir.join(c.name.replace([':', '/'], "_"));
     let zdir = base.join("zones");
     let hdir = base.join("hosts");
-    std::fs::create_dir_all(&zdir).map_err(|e| e.to_string())?;
-    std::fs::create_dir_all(&hdir).map_err(|e| e.to_string())?;
+    std::fs::create_dir_all(&zdir).map_err(|e| format!("setup: {e}"))?;
+    std::fs::create_dir_all(&hdir).map_err(|e| format!("setup: {e}"))?;
     let mut zone_files = Vec::new();
     let mut hosts_files = Vec::new();
     for (n, content) in &c.zones {
         let p = zdir.join(n);
-        std::fs::write(&p, content).map_err(|e| e.to_string())?;
+        std::fs::write(&p, content).map_err(|e| format!("setup: {e}"))?;
         zone_files.push(p);
     }
     for (n, content) in &c.hosts {
         let p = hdir.join(n);
-        std::fs::write(&p, content).map_err(|e| e.to_string())?;
+        std::fs::write(&p, content).map_err(|e| format!("setup: {e}"))?;
         hosts_files.push(p);
     }
     let mut zone_dirs = Vec::new();
@@ -1160,6 +1160,10 @@ pub fn run(ctx: &Ctx) -> i32 {
             (Ok(true), true) | (Ok(false), false) => None,
             (Ok(true), false) => Some("load_zone_configuration returned Some although one file is unusable".to_string()),
             (Ok(false), true) => Some("load_zone_configuration returned None for good files (control)".to_string()),
+            (Err(e), _) if e.contains("setup: ") || e.contains("cannot start the worker") => {
+                eprintln!("machinery error: loader case {}: {e}", c.name);
+                return 2;
+            }
             (Err(e), _) => Some(format!("load_zone_configuration: {e}")),
         };
         if let Some(why) = bad {
